@@ -386,6 +386,67 @@ func init() {
 		s.addTimer(asInt64(a[0]), func() { s.timerSend(c, tv) })
 		return c
 	})
+	// time.NewTimer / NewTicker: a struct whose first field C is an engine channel fed by the scheduler's timers
+	newTimerValue := func(fr *frame, typeName string, d int64, periodic bool) value {
+		s := fr.sched()
+		if r := fr.run(); r.flags["fsVisible"] != 0 && fr.g != nil {
+			fs := r.FS()
+			fs.opLog = append(fs.opLog, fmt.Sprintf("%d sleep -", fr.g.pid))
+		}
+		c := fr.run().newChan(fr.typeOf("time", "Time"), 1)
+		tv := interceptTable["time.Now"](fr, nil)
+		t := fr.typeOf("time", typeName)
+		cell := new(value)
+		st := zero(t).(structure)
+		st[0] = c
+		*cell = st
+		key := fmt.Sprintf("timer:%p", cell)
+		var arm func()
+		arm = func() {
+			tm := s.addTimer(d, func() {
+				s.timerSend(c, tv)
+				if periodic {
+					if old, ok := fr.run().objs[key].(*timer); ok && old.dead {
+						return
+					}
+					arm()
+				}
+			})
+			fr.run().objs[key] = tm
+		}
+		arm()
+		return cell
+	}
+	register("time.NewTimer", func(fr *frame, a []value) value { return newTimerValue(fr, "Timer", asInt64(a[0]), false) })
+	register("time.NewTicker", func(fr *frame, a []value) value { return newTimerValue(fr, "Ticker", asInt64(a[0]), true) })
+	register("time.Tick", func(fr *frame, a []value) value {
+		cell := newTimerValue(fr, "Ticker", asInt64(a[0]), true).(*value)
+		return (*cell).(structure)[0]
+	})
+	register("(*time.Ticker).Stop", func(fr *frame, a []value) value {
+		if tm, ok := fr.run().objs[fmt.Sprintf("timer:%p", a[0].(*value))].(*timer); ok {
+			tm.dead = true
+		}
+		return nil
+	})
+	register("(*time.Timer).Reset", func(fr *frame, a []value) value {
+		cell := a[0].(*value)
+		key := fmt.Sprintf("timer:%p", cell)
+		was := false
+		if tm, ok := fr.run().objs[key].(*timer); ok {
+			was = !tm.fired && !tm.dead
+			tm.dead = true
+		}
+		s := fr.sched()
+		c := (*cell).(structure)[0]
+		tv := interceptTable["time.Now"](fr, nil)
+		if ch, ok := c.(*gochan); ok && ch != nil {
+			fr.run().objs[key] = s.addTimer(asInt64(a[1]), func() { s.timerSend(ch, tv) })
+		} else {
+			panic(unsupported("(*time.Timer).Reset on a timer without channel (AfterFunc)"))
+		}
+		return was
+	})
 	register("time.AfterFunc", func(fr *frame, a []value) value {
 		s := fr.sched()
 		fn := a[1]
@@ -422,8 +483,43 @@ func init() {
 		return 4242
 	})
 	// liveness probe of another process: answered by the harness's process table
+	// finer model: the probe's system calls are environment, processRunning itself is real code.
+	// os.FindProcess never fails on unix; Signal(0) answers from the harness's process table:
+	// 0 = alive and ours (nil), 1 = alive but owned by another user (EPERM), 2 = gone (os.ErrProcessDone)
+	register("os.FindProcess", func(fr *frame, a []value) value {
+		t := fr.typeOf("os", "Process")
+		cell := new(value)
+		st := zero(t).(structure)
+		st[0] = a[0]
+		*cell = st
+		return tuple{cell, nilErr}
+	})
+	register("(*os.Process).Signal", func(fr *frame, a []value) value {
+		pkg := fr.i.prog.ImportedPackage("grog/internal/locking")
+		var fn *ssa.Function
+		if pkg != nil {
+			fn = pkg.Func("verifProcessSignal")
+		}
+		if fn == nil {
+			panic(unsupported("(*os.Process).Signal: no harness defines verifProcessSignal"))
+		}
+		fr.sched().yieldPoint(fr.g, "liveness probe")
+		pid := (*a[0].(*value)).(structure)[0]
+		switch asInt64(call(fr.i, fr, token.NoPos, fn, []value{pid})) {
+		case 0:
+			return nilErr
+		case 1:
+			return iface{t: fr.typeOf("syscall", "Errno"), v: uintptr(1)}
+		default:
+			return fr.globalErr("os", "ErrProcessDone")
+		}
+	})
 	register("grog/internal/locking.processRunning", func(fr *frame, a []value) value {
 		pkg := fr.i.prog.ImportedPackage("grog/internal/locking")
+		if pkg.Func("verifProcessSignal") != nil {
+			// the harness models the system calls: run the real function
+			return fr.i.runBody(fr, pkg.Func("processRunning"), a)
+		}
 		fn := pkg.Func("verifProcessRunning")
 		if fn == nil {
 			panic(unsupported("processRunning: harness does not define verifProcessRunning"))
